@@ -361,6 +361,50 @@ pub fn items() -> Vec<Item> {
     for t in ["a. 1 IN SOA ns.a. admin.a. ( 1 2 3", "a. 1 IN SOA ns.a. admin.a. (", "x. 1 IN A 1.2.3.4\n", "x. 1\nIN A 1.2.3.4", "x. 1 IN\x0bA 1.2.3.4", "x. 1 IN TXT \"a\"\x0c", "a. 1 IN SOA ns.a. admin.a. ( 1 2 3 4 5 ) )", "x. 1 IN A 1.2.3.4\r\n"] {
         v.push(Item::FromString(t.to_string()));
     }
+    // a packet that fails only after all of its names were looked at, and packets of the same layout in which
+    // one of those offsets holds a pointer to itself (what a parse remembers about offsets of a packet it gave
+    // up on must not reach the next one)
+    {
+        let q = [3u8, b'f', b'o', b'o', 0, 0, 1, 0, 1];
+        let hdr = |id: u8| vec![0u8, id, 0x81, 0x80, 0, 1, 0, 1, 0, 0, 0, 0];
+        let mut valid = hdr(1);
+        valid.extend_from_slice(&q);
+        valid.extend_from_slice(&[3, b'b', b'a', b'r', 0, 0, 1, 0, 1, 0, 0, 0, 60, 0, 4, 1, 2, 3, 4]);
+        let mut stray = valid.clone();
+        stray.push(0xff);
+        let mut cut = valid.clone();
+        cut.pop();
+        let mut own = hdr(2);
+        own.extend_from_slice(&q);
+        own.extend_from_slice(&[0xc0, 21, 0, 1, 0, 1, 0, 0, 0, 60, 0, 4, 1, 2, 3, 4]);
+        let mut into_q = hdr(4);
+        into_q.extend_from_slice(&[0xc0, 12, 0, 1, 0, 1]);
+        into_q.extend_from_slice(&[0xc0, 12, 0, 1, 0, 1, 0, 0, 0, 60, 0, 4, 1, 2, 3, 4]);
+        let selfq = vec![0u8, 3, 1, 0, 0, 1, 0, 0, 0, 0, 0, 0, 0xc0, 12, 0, 1, 0, 1];
+        for p in [stray, own, selfq, cut, into_q, valid] {
+            v.push(Item::Parse(p.clone()));
+            v.push(Item::Uncompress(p));
+        }
+    }
+    // record data of one type in several sizes, long ones first (a scratch buffer that only grows), valid
+    // and refused
+    for t in [
+        "d. 1 IN DS 1 2 3 00112233445566778899aabbccddeeff00112233445566778899aabbccddeeff",
+        "d. 1 IN DS 1 2 3 00112233445566778899aabbccddeeff0011223",
+        "d. 1 IN DS 1 2 3 0011223344556677889900112233445566778899",
+        "d. 1 IN DS 1 2 3 ab",
+        "d. 1 IN TXT \"0123456789012345678901234567890123456789012345678901234567890123456789\"",
+        "d. 1 IN TXT \"x\"",
+        "d. 1 IN TXT \"\"",
+        "d. 1 IN AAAA 2001:db8:1:2:3:4:5:6",
+        "d. 1 IN AAAA ::",
+        "d. 1 IN MX 1 aaaaaaaaaaaaaaaaaaaaaaaaaaaaaa.bbbbbbbbbbbbbbbbbbbbbbbbbbbbbb.cccccccccccccccccccc",
+        "d. 1 IN MX 1 m",
+        "d. 1 IN SOA aaaaaaaaaaaaaaaaaaaaaaaaaaaaaa.bbbbbbbbbbbbbbbbbbbbbbbb bbbbbbbbbbbbbbbbbbbbbbbbbbbbbbbbbb.c ( 4000000000 4000000000 4000000000 4000000000 4000000000 )",
+        "d. 1 IN SOA a b ( 1 1 1 1 1 )",
+    ] {
+        v.push(Item::FromString(t.to_string()));
+    }
     for t in ["x. 60 IN A 1.2.3.4", "a.b. 1 IN MX 10 mail.a.b.", "a. 1 IN SOA ns.a. admin.a. ( 1 2 3 4 5 )", "x. 0 IN TXT \"hello\\032world\"", "x. 1 IN DS 1 2 3 abcd", "x. 1 IN AAAA 2001:db8::1", "x. 1 IN NS", "", "x. 4294967296 IN A 1.2.3.4", "b.a 5 in cname c.b.a"] {
         v.push(Item::FromString(t.to_string()));
     }
